@@ -430,7 +430,7 @@ theorem chLo_pos : (0 : ℝ) < chLo := by rw [chLo_real]; norm_num
 theorem chLo_lt_chHi : (chLo : ℝ) < chHi := by rw [chLo_real, chHi_real]; norm_num
 theorem chHi_lt_one : (chHi : ℝ) < 1 := by rw [chHi_real]; norm_num
 
-theorem igSentinel_iff (x a : ℝ) : igSentinel x a = true ↔ x ≠ 0 ∧ (x < 0 ∨ a ≤ 0) := by
+theorem igSentinel_iff (x a : ℝ) : igSentinel x a = true ↔ x < 0 ∨ a ≤ 0 := by
   simp [igSentinel]
 theorem pGammaRaises_iff (a b : ℝ) : pGammaRaises a b = true ↔ a < 0 ∨ b < 0 := by
   simp [pGammaRaises]
